@@ -466,7 +466,14 @@ def prepare(scen):
     tys = [scen[k] for k in ('ty',) if k in scen] + list(scen.get('tys', []))
     for tj in tys:
         try:
-            ctx.describe(ctx.ty(tj))
+            live = ctx.ty(tj)
+            desc = ctx.describe(live)
+            if tj is scen.get('ty') and not create_err and '"unsupported"' not in json.dumps(desc) and '"foreign"' not in json.dumps(desc):
+                # the model is given the type AS TYPING BUILT IT (typing normalises and caches: Union flattening /
+                # de-duplication, order-insensitive equality of Literal inside cached generic aliases, …)
+                scen['ty_declared'] = tj
+                scen['ty'] = desc
+                scen['_live_ty'] = live
         except Exception:
             pass
     entries = {}
@@ -542,7 +549,9 @@ def map_exc(e):
 def build(ctx, scen):
     """-> (converter, None) or (None, buildError json)"""
     try:
-        T = ctx.ty(scen['ty'])
+        T = scen.pop('_live_ty', None)
+        if T is None:
+            T = ctx.ty(scen['ty'])
     except Exception as e:
         return None, None, {'buildError': 'harness:' + type(e).__name__ + ':' + str(e)[:80]}
     custom = ctx.handlers(scen.get('handlers', {}).get('globals') if scen.get('handlers') else None)
